@@ -855,6 +855,21 @@ def round18_entries():
                     ["$%s = comdat any" % nm, "@g = global i32 0, comdat($%s)" % nm, "@%s = global i32 1, comdat\n" % nm, "define void @f() comdat($%s) {" % nm]))
     return out
 
+def round20_entries():
+    """closing the misses of seed round 20"""
+    out = []
+    # a clause written TWICE on an alias / ifunc (the last one wins, as in LLVM)
+    out.append(("alias.partition-twice", '@g = global i32 0\n\n@a = alias i32, i32* @g, partition "p1", partition "p2"\n', ['@a = alias i32, i32* @g, partition "p2"']))
+    out.append(("ifunc.partition-twice", 'define i32 ()* @r() {\n\tret i32 ()* null\n}\n\n@i = ifunc i32 (), i32 ()* ()* @r, partition "p1", partition "p2"\n', ['@i = ifunc i32 (), i32 ()* ()* @r, partition "p2"']))
+    # a NUMBERED !DIExpression (old-LLVM style) referred to by its ID from a tuple, from a field of a specialised node and from a metadata-typed call argument: every
+    # reference prints the ID of the definition (a reference that became a copy prints the expression inline)
+    out.append(("diexpression.numbered-references", 'declare void @llvm.dbg.value(metadata, metadata, metadata)\n\ndefine void @f(i32 %x) {\n\tcall void @llvm.dbg.value(metadata i32 %x, metadata !5, metadata !4)\n\tret void\n}\n\n'
+                '!named = !{!3, !6}\n\n!3 = !{!4, !4}\n!4 = !DIExpression(DW_OP_deref)\n!5 = !{}\n!6 = !DIGlobalVariableExpression(var: !7, expr: !4)\n!7 = distinct !DIGlobalVariable(name: "g", scope: null, isLocal: false, isDefinition: true)\n',
+                ["metadata !5, metadata !4)", "!3 = !{!4, !4}", "!4 = !DIExpression(DW_OP_deref)", "expr: !4)"]))
+    out.append(("diexpression.numbered-empty", '!named = !{!6}\n\n!4 = !DIExpression()\n!6 = !DIGlobalVariableExpression(var: !7, expr: !4)\n!7 = distinct !DIGlobalVariable(name: "g", scope: null, isLocal: false, isDefinition: true)\n',
+                ["!4 = !DIExpression()", "expr: !4)"]))
+    return out
+
 def bare_digit_identifiers():
     """identifiers made of digits at the boundaries of the ID range, written BARE (2^63 - 1 is the largest ID llir reads; from 2^63 on it reads the digits as a NAME; LLVM
     reads every bare digit identifier as an ID, so these are no LLVM inputs: C02 only — whatever the parser accepts is printed as a one-step fixpoint)"""
@@ -974,4 +989,4 @@ def layout_entries():
 
 
 def all_entries(rows):
-    return kw_entries(rows) + STRUCTURED + NAMED_NONSTRUCT + inst_entries() + DI + MISC + comdat_entries() + flag_cross_entries() + addrspace_cross_entries() + written_type_entries() + REPEATS + UINT_LITS + order_entries() + DI_REFS + clausegen.all_entries() + layout_entries() + round13_entries() + round14_entries() + round15_entries() + round16_entries() + round17_entries() + round18_entries()
+    return kw_entries(rows) + STRUCTURED + NAMED_NONSTRUCT + inst_entries() + DI + MISC + comdat_entries() + flag_cross_entries() + addrspace_cross_entries() + written_type_entries() + REPEATS + UINT_LITS + order_entries() + DI_REFS + clausegen.all_entries() + layout_entries() + round13_entries() + round14_entries() + round15_entries() + round16_entries() + round17_entries() + round18_entries() + round20_entries()
